@@ -207,6 +207,49 @@ static void s_dump(const struct aws_json_value *v) {
     }
 }
 
+/* ---- iteration with a callback that can stop or fail at a given invocation ---- */
+struct iter_ctx {
+    long stop, fail;
+    size_t n;
+};
+
+static int s_iter_member(const struct aws_byte_cursor *key, const struct aws_json_value *value, bool *out_continue, void *ud) {
+    struct iter_ctx *c = ud;
+    if (c->n) {
+        putchar(',');
+    }
+    hc_put_hex(key->ptr, key->len);
+    putchar(':');
+    s_dump(value);
+    size_t i = c->n++;
+    if (c->fail >= 0 && (size_t)c->fail == i) {
+        return AWS_OP_ERR;
+    }
+    if (c->stop >= 0 && (size_t)c->stop == i) {
+        *out_continue = false;
+    }
+    return AWS_OP_SUCCESS;
+}
+
+static int s_iter_value(size_t idx, const struct aws_json_value *value, bool *out_continue, void *ud) {
+    struct iter_ctx *c = ud;
+    if (idx != c->n) {
+        printf("?idx=%zu", idx);
+    }
+    if (c->n) {
+        putchar(',');
+    }
+    s_dump(value);
+    size_t i = c->n++;
+    if (c->fail >= 0 && (size_t)c->fail == i) {
+        return AWS_OP_ERR;
+    }
+    if (c->stop >= 0 && (size_t)c->stop == i) {
+        *out_continue = false;
+    }
+    return AWS_OP_SUCCESS;
+}
+
 static struct aws_byte_cursor s_cur(const char *hex, uint8_t **owned) {
     size_t n = 0;
     *owned = hc_hex_decode(hex, &n);
@@ -411,6 +454,60 @@ int main(void) {
             }
         } else if (!strcmp(t[0], "destroy") && n == 2 && s_get(t[1])) {
             s_del(t[1], true);
+        } else if (!strcmp(t[0], "cstr_str") && n == 3) {
+            /* aws_json_value_new_string_from_c_str on a temporary that is released right away: the value must own a copy */
+            struct aws_byte_cursor c = s_cur(t[2], &own);
+            size_t len = 0;
+            while (len < c.len && c.ptr[len] != 0) {
+                ++len;
+            }
+            char *tmp = malloc(len + 1);
+            memcpy(tmp, c.ptr, len);
+            tmp[len] = 0;
+            struct aws_json_value *v = aws_json_value_new_string_from_c_str(al, tmp);
+            memset(tmp, 0x5A, len + 1);
+            free(tmp);
+            s_set(t[1], v);
+        } else if (!strcmp(t[0], "reinit") && n == 1) {
+            bool any = false;
+            for (int i = 0; i < MAXSLOT; ++i) {
+                any = any || s_slot[i].v;
+            }
+            for (int i = 0; i < MAXBUF; ++i) {
+                any = any || s_buf[i].used;
+            }
+            if (any) {
+                printf("bad-op\n");
+            } else {
+                /* module shut down and brought up again: values created afterwards must work and be accounted */
+                aws_json_module_cleanup();
+                aws_json_module_init(al);
+            }
+        } else if (!strcmp(t[0], "iter") && n == 4 && s_ref(t[1]) && (!strcmp(t[2], "-") || (t[2][0] >= '0' && t[2][0] <= '9')) &&
+                   (!strcmp(t[3], "-") || (t[3][0] >= '0' && t[3][0] <= '9'))) {
+            struct aws_json_value *v = s_ref(t[1]);
+            struct iter_ctx c = {.stop = strcmp(t[2], "-") ? atol(t[2]) : -1, .fail = strcmp(t[3], "-") ? atol(t[3]) : -1, .n = 0};
+            /* items are printed by the callback while iterating; the header needs rc and count, so buffer via a second pass */
+            char *mem = NULL;
+            size_t memlen = 0;
+            FILE *real = stdout;
+            FILE *ms = open_memstream(&mem, &memlen);
+            HC_CHECK(ms != NULL);
+            fflush(stdout);
+            stdout = ms;
+            aws_reset_error();
+            int rc = aws_json_value_is_array(v) ? aws_json_const_iterate_array(v, s_iter_value, &c)
+                                                : aws_json_const_iterate_object(v, s_iter_member, &c);
+            const char *raised = s_raised();
+            fflush(ms);
+            stdout = real;
+            fclose(ms);
+            if (rc == AWS_OP_SUCCESS) {
+                printf("P iter OK n=%zu %s\n", c.n, mem ? mem : "");
+            } else {
+                printf("P iter ERR %s n=%zu %s\n", raised, c.n, mem ? mem : "");
+            }
+            free(mem);
         } else if (!strcmp(t[0], "buf") && n == 4 && !strchr(t[1], '/') && strlen(t[1]) < sizeof(s_buf[0].name)) {
             int i = s_buf_find(t[1]);
             if (i >= 0) {
